@@ -29,7 +29,7 @@ _W = [
     ("transform", 12), ("derived_validate", 6),
     ("check_input", 2), ("check_output", 2),
     ("model_validate", 6), ("model_call", 2), ("model_to_schema", 3),
-    ("model_to_yaml", 2), ("model_misc", 2), ("check_types", 2),
+    ("model_to_yaml", 2), ("model_misc", 5), ("check_types", 3),
     ("strategy", 1), ("example", 1), ("model_example", 0.5),
 ]
 MODEL_ONLY = {"model_validate", "model_call", "model_to_schema", "model_to_yaml",
